@@ -181,8 +181,10 @@ contract(
         Clause("value", {"C19"}, lambda a, r, p: r == (
             a.alpha if not _is_str(a.alpha) else H_(a.alpha, 0) - 1)),
     ],
-    loops={0: Inv(lambda a, v: H_(suffix(a.alpha, v.k_), v.column) == H_(a.alpha, 0))},
-    uses=[LEM_H_SUFFIX, AX_H_NIL],
+    loops={0: Inv(lambda a, v: H_(suffix(a.alpha, v.k_), v.column) == H_(a.alpha, 0),
+                  # one ground instance of the proved suffix-step lemma (its trigger re-matches its own instance)
+                  hints=lambda a, v: [(LEM_H_SUFFIX, (a.alpha, zint(v.k_), zint(v.column)))])},
+    uses=[AX_H_NIL],
     result=Int,
     note="proved for ASCII input strings (str.isalpha / str.lower are exact there)",
 )
